@@ -456,7 +456,11 @@ def r9_5(ctx: Ctx, L: Loop, rule="R9.5"):
     for i, p in enumerate(paths):
         resets = [s for s in p.stmts() if isinstance(s, ast.Assign) and norm(s.targets[0]) == L.counter]
         incs = [s for s in p.stmts() if isinstance(s, ast.AugAssign) and norm(s.target) == L.counter]
-        good_reset = len(resets) == 1 and const_int(resets[0].value) == 0 and not incs
+        # net effect along the path: an increment followed by the reset is a reset (the counter ends at 0); a reset followed
+        # by an increment is neither
+        ops_ = [s for s in p.stmts() if s in resets or s in incs]
+        good_reset = len(resets) == 1 and const_int(resets[0].value) == 0 and (not incs or (ops_ and ops_[-1] is resets[0] and len(incs) == 1
+                                                                                          and isinstance(incs[0].op, ast.Add) and const_int(incs[0].value) == 1))
         good_inc = len(incs) == 1 and isinstance(incs[0].op, ast.Add) and const_int(incs[0].value) == 1 and not resets
         accepted = any(any(x is L.acc_call for x in ast.walk(t)) and o for t, o in p.conds())
         strict = None
